@@ -30,7 +30,7 @@ func init() {
 		Race:      true,
 		RaceFiles: []string{"serveconn.go", "channel.go", "ssesssion.go"},
 		Shards:    shards(8, 16),
-		Timeout:   timeouts(3*time.Minute, 40*time.Minute),
+		Timeout:   timeouts(12*time.Minute, 90*time.Minute),
 		MinEvals:  100,
 		Required:  []string{"requests_dispatched", "replies_checked", "duplicate_probes", "inversions", "error_replies", "instant_completions", "tag_reuses", "serve_returned", "duplicate_bursts", "boundary_size_results", "held_messages_rechecked", "duplicate_while_writer_busy"},
 		Run:       runC06,
